@@ -97,6 +97,8 @@ def parse_vspec(path):
             ent = {"type": "item", "src": parts[0], "kind": parts[1], "name": parts[2], "opts": parts[3:],
                    "derive": None}
             for o in parts[3:]:
+                if o.startswith("vattr="):
+                    ent.setdefault("vattrs", []).append(o[len("vattr="):])
                 if o.startswith("derive="):
                     ent["derive"] = o[len("derive="):]
                 if o.startswith("eval="):
@@ -157,6 +159,10 @@ def parse_vspec(path):
             cur_fn["r12"] = True
         elif head == "r15":
             cur_fn.setdefault("r15", []).append(rest)
+        elif head == "r17":
+            cur_fn["r17"] = True
+        elif head == "r18":
+            cur_fn["r18"] = True
         elif head == "fnattr":
             cur_fn.setdefault("fnattrs", []).append(rest)
         elif head == "r9":
@@ -431,6 +437,58 @@ class UnitGen:
                     edits.append((ke, e0, ")", "R12"))
                     self.rewrites.append({"rule": "R12", "what": f"`{src.text(ms, me)}.entry(k).or_default()` -> vx_entry_or_default(&mut map, k) in {qual}",
                                           "file": src.rel, "line": src.line_of(s0)})
+        # R18: `match E { P if G => A, _ => B }` (exactly these two arms) -> `if let P = E { if G { A } else { B } } else { B }`
+        # (the installed Verus refuses a match arm that has both a guard and a by-mutable-reference binding). The guard is
+        # evaluated exactly once on the path where P matches, as in the original; B is duplicated textually.
+        if fs.get("r18"):
+            k18 = 0
+            for n in nodes:
+                if n["kind"] != "match" or len(n["arms"]) != 2:
+                    continue
+                a0, a1 = n["arms"]
+                if a0["guard"] is None or not a1["wild"] or a1["guard"] is not None:
+                    continue
+                if not (a0["body_is_block"] and a1["body_is_block"]):
+                    raise Undecided(f"fn {qual}: R18 refused (arm bodies are not blocks)")
+                s0, e0 = n["range"]
+                P = src.text(*a0["pat"]); G = src.text(*a0["guard"]); E = src.text(*n["scrutinee"])
+                A = src.text(*a0["body"]); B = src.text(*a1["body"])
+                # surgical edits (the arm bodies stay in place so that hints and canaries inside them still apply; the
+                # second copy of B is the original text)
+                edits.append((s0, a0["pat"][0], "if let ", "R18"))
+                edits.append((a0["pat"][1], a0["guard"][0], f" = {E} {{ if ", "R18"))
+                edits.append((a0["guard"][1], a0["body"][0], " ", "R18"))
+                edits.append((a0["body"][1], a1["body"][0], " else ", "R18"))
+                edits.append((a1["body"][1], e0, f" }} else {B}", "R18"))
+                k18 += 1
+                self.rewrites.append({"rule": "R18", "what": f"`match {E} {{ P if G => A, _ => B }}` -> if let P = {E} {{ if G A else B }} else B in {qual}",
+                                      "file": src.rel, "line": src.line_of(s0)})
+            if k18 == 0:
+                raise Undecided(f"fn {qual}: R18 requested but no two-armed guarded match found (lost anchor)")
+        # R17: `E.map_err(|e| F)?` -> `match E { Ok(v) => v, Err(e) => return Err(F) }`
+        # (definitions of Result::map_err and of `?`; the `From::from` that `?` applies is the identity here: refused unless
+        #  the vspec asserts it by asking for r17 on a function whose error type is the closure's result type)
+        if fs.get("r17"):
+            k17 = 0
+            for n in nodes:
+                if n["kind"] == "closure_call" and n["method"] == "map_err":
+                    c = n["closure"]
+                    s0, e0 = n["range"]
+                    if src.bytes[e0:e0 + 1] != b"?":
+                        continue
+                    if c["has_ctrl"] or len(c["params"]) != 1:
+                        raise Undecided(f"fn {qual}: R17 refused (closure shape)")
+                    pat = src.text(*c["params"][0])
+                    rs, re_ = n["receiver"]
+                    bs, be = c["body"]
+                    edits.append((s0, rs, "(match ", "R17"))
+                    edits.append((re_, bs, f" {{ Ok(vx_ok{k17}) => vx_ok{k17}, Err({pat}) => return Err(", "R17"))
+                    edits.append((be, e0 + 1, ") })", "R17"))
+                    k17 += 1
+                    self.rewrites.append({"rule": "R17", "what": f"`E.map_err(|{pat}| F)?` -> match E {{ Ok(v) => v, Err({pat}) => return Err(F) }} in {qual}",
+                                          "file": src.rel, "line": src.line_of(s0)})
+            if k17 == 0:
+                raise Undecided(f"fn {qual}: R17 requested but no `.map_err(..)?` found (lost anchor)")
         # R1: Option::and_then / map closures
         ccs = [n for n in nodes if n["kind"] == "closure_call" and n["method"] in ("and_then", "map")]
         sel = range(len(ccs)) if fs["r1"] == "all" else fs["r1"]
@@ -635,6 +693,8 @@ class UnitGen:
                         edits.append((off, off, "'static ", "R14"))
                         self.rewrites.append({"rule": "R14", "what": f"const {ent['name']}: elided lifetime written as 'static",
                                               "file": src.rel, "line": src.line_of(a)})
+                for va in ent.get("vattrs", []):
+                    em.raw(f"#[verifier::{va}]\n", ("rw", "vattr"))
                 if ent["derive"]:
                     em.raw(f"#[derive({ent['derive']})]\n", ("rw", "derive"))
                 self._emit_edits(src, a, b, edits, em)
